@@ -1,0 +1,90 @@
+//! Read-only verification hooks, compiled only with the `verif` feature.
+//!
+//! Nothing here changes the behaviour of the library: the probe reads the bookkeeping state of a
+//! node and of the clones recorded in its graph, and the trace records which nodes had their
+//! derivative closure invoked during a backward pass.
+
+use crate::array::*;
+
+use std::cell::RefCell;
+
+/// A snapshot of the bookkeeping state reachable from one array handle.
+#[derive(Clone, Debug, PartialEq)]
+pub struct VerifProbe {
+    /// Identity of the node (address of the counter cell shared by all clones of the node).
+    pub node: usize,
+    /// Identity of the value buffer.
+    pub buffer: usize,
+    /// The number of consumers which have not yet delivered a delta.
+    pub consumer_count: usize,
+    /// Whether a delta is pending on the node.
+    pub has_delta: bool,
+    /// Whether a gradient is stored on the node.
+    pub has_gradient: bool,
+    /// The tracking flag of this handle.
+    pub is_tracked: bool,
+    /// The keep-gradient flag of this handle.
+    pub keep_gradient: bool,
+    /// Whether the handle carries a derivative closure.
+    pub has_backward_op: bool,
+    /// The number of handles sharing the value buffer.
+    pub buffer_owners: usize,
+    /// The number of handles sharing the node's bookkeeping.
+    pub node_owners: usize,
+    /// The probes of the clones recorded as operands.
+    pub children: Vec<VerifProbe>,
+}
+
+thread_local! {
+    static TRACE: RefCell<Vec<(usize, Vec<Float>)>> = RefCell::new(Vec::new());
+    static TRACE_ON: Cell<bool> = Cell::new(false);
+}
+
+/// Enables, or disables the derivative invocation trace of the current thread.
+pub fn verif_trace_enable(on: bool) {
+    TRACE_ON.with(|t| t.set(on));
+}
+
+/// Drains the derivative invocation trace of the current thread: (node identity, received delta).
+pub fn verif_take_trace() -> Vec<(usize, Vec<Float>)> {
+    TRACE.with(|t| t.replace(Vec::new()))
+}
+
+pub(crate) fn verif_trace_push(node: usize, delta: &[Float]) {
+    if TRACE_ON.with(|t| t.get()) {
+        TRACE.with(|t| t.borrow_mut().push((node, delta.to_vec())));
+    }
+}
+
+impl Array {
+    /// Identity of the node this handle refers to.
+    pub fn verif_node_id(&self) -> usize {
+        Rc::as_ptr(&self.consumer_count) as usize
+    }
+
+    /// Reads the bookkeeping state reachable from this handle, without changing it.
+    pub fn verif_probe(&self) -> VerifProbe {
+        let delta = self.delta.take();
+        let has_delta = delta.is_some();
+        self.delta.set(delta);
+
+        let has_gradient = match self.gradient.try_borrow() {
+            Ok(g) => g.is_some(),
+            Err(_) => true,
+        };
+
+        VerifProbe {
+            node: self.verif_node_id(),
+            buffer: Rc::as_ptr(&self.values) as usize,
+            consumer_count: self.consumer_count.get(),
+            has_delta,
+            has_gradient,
+            is_tracked: self.is_tracked.get(),
+            keep_gradient: self.keep_gradient.get(),
+            has_backward_op: self.backward_op.is_some(),
+            buffer_owners: Rc::strong_count(&self.values),
+            node_owners: Rc::strong_count(&self.consumer_count),
+            children: self.children.iter().map(|c| c.verif_probe()).collect(),
+        }
+    }
+}
